@@ -1,6 +1,7 @@
 import AiocoapModel.Basic.Bytes
 import AiocoapModel.Observe.Client
 import AiocoapModel.Observe.Joint
+import AiocoapModel.Observe.Iterator
 import AiocoapModel.Driver.MsgLayer
 /-!
 Line protocol for C07.
@@ -17,6 +18,17 @@ Line protocol for C07.
    (`requests[0].observation.cancel()`); `C@t:0` is `requests[0].response.cancel()`.
    → the groups of the message-layer protocol; the deliveries of request 0 are added to their
      group as `D<nn>:<delivery>` (`nn` = position among the deliveries of the group)
+`C07 I <op>*`                                              `ClientObservation._Iterator`
+   ops: `P<n>` push item n    `EN` | `EC` | `ET<k>` push_err(NotObservable | ObservationCancelled |
+        exception k)          `N` the consumer calls `__anext__`    `W` the loop resumes the consumer
+        `X` the consumer task is cancelled
+   → one group per op: `<outputs,comma|.>/<slot><deferred><consumer>` with outputs `i<n>` `stop`
+     `raise:<k>` `cancelled`; slot `p` | `r<n>` | `e<N|C|Tk>` | `c`; deferred `-` | `N` | `C` | `Tk`;
+     consumer `i` idle, `s` suspended on the future in the slot, `o` suspended on an older future.
+     `N` while the consumer is suspended → `out-of-model`.
+`C07 A <delivery>* | <op>*`                                `__aiter__` on an observation that has
+   been through the deliveries (`cb:<n>` / `eb:<N|C|Tk>`) already, then ops as for `I`
+   → the groups of the ops after the `|` (the replay is visible in the first group's state)
 -/
 namespace Aiocoap
 open Aiocoap.Observe
@@ -136,6 +148,70 @@ def handleJoint (reset observe : String) (args : List String) : String :=
     | _, _, _, _, _, _ => "bad-op"
   | _, _, _ => "bad-op"
 
+-- the async iterator ----------------------------------------------------------------------------
+
+def parseErrKind (s : String) : Option ErrKind :=
+  if s = "N" then some .notObservable
+  else if s = "C" then some .observationCancelled
+  else if s.startsWith "T" then (s.drop 1).toNat?.map .transport
+  else none
+
+def errShort : ErrKind → String
+  | .notObservable => "N"
+  | .observationCancelled => "C"
+  | .transport k => s!"T{k}"
+
+def parseIterOp (s : String) : Option (Iter.Op Nat) :=
+  if s = "N" then some .next
+  else if s = "W" then some .wake
+  else if s = "X" then some .cancel
+  else if s.startsWith "P" then (s.drop 1).toNat?.map .push
+  else if s.startsWith "E" then (parseErrKind (s.drop 1).toString).map .pushErr
+  else none
+
+def iterOutStr : Iter.Out Nat → String
+  | .item n => s!"i{n}"
+  | .stop => "stop"
+  | .raise k => s!"raise:{k}"
+  | .cancelled => "cancelled"
+
+def futStr : Iter.Fut Nat → String
+  | .pending => "p"
+  | .result n => s!"r{n}"
+  | .exc e => "e" ++ errShort e
+  | .cancelled => "c"
+
+def iterStateStr (s : Iter.St Nat) : String :=
+  futStr (s.get s.slot) ++ (match s.deferred with | none => "-" | some e => errShort e) ++
+  (match s.cons with
+   | .idle => "i"
+   | .waiting f => if f = s.slot then "s" else "o")
+
+def iterGroups (s : Iter.St Nat) : List (Iter.Op Nat) → Option (List String)
+  | [] => some []
+  | o :: os =>
+    if o = .next ∧ s.cons ≠ .idle then none else
+    let r := Iter.step s o
+    let g := (if r.2.isEmpty then "." else ",".intercalate (r.2.map iterOutStr)) ++ "/" ++ iterStateStr r.1
+    (iterGroups r.1 os).map (g :: ·)
+
+def parseReplay (s : String) : Option (Iter.Op Nat) :=
+  if s.startsWith "cb:" then (s.drop 3).toNat?.map .push
+  else if s.startsWith "eb:" then (parseErrKind (s.drop 3).toString).map .pushErr
+  else none
+
+/-- `__aiter__` after the deliveries `ds` (given as the pushes they would have been): the replay of
+`Iter.openOps`, over item numbers -/
+def replayOps (ds : List (Iter.Op Nat)) : List (Iter.Op Nat) :=
+  let lastPush := ds.foldl (fun acc o => match o with | .push n => some n | _ => acc) none
+  let firstErr := ds.findSome? (fun o => match o with | .pushErr e => some e | _ => none)
+  lastPush.toList.map .push ++ firstErr.toList.map .pushErr
+
+def iterAnswer (s : Iter.St Nat) (ops : List (Iter.Op Nat)) : String :=
+  match iterGroups s ops with
+  | some gs => if gs.isEmpty then "-" else " ".intercalate gs
+  | none => "out-of-model"
+
 end Observe
 
 def handleC07 (args : List String) : String :=
@@ -153,6 +229,15 @@ def handleC07 (args : List String) : String :=
       | none => "out-of-model"
     | _, _, _ => "bad-op"
   | "J" :: reset :: observe :: rest => handleJoint reset observe rest
+  | "I" :: ops =>
+    match ops.mapM parseIterOp with
+    | some ops => iterAnswer Iter.init ops
+    | none => "bad-op"
+  | "A" :: rest =>
+    match (rest.takeWhile (· ≠ "|")).mapM parseReplay, ((rest.dropWhile (· ≠ "|")).drop 1).mapM parseIterOp with
+    | some ds, some ops =>
+      if rest.contains "|" then iterAnswer (Iter.final Iter.init (replayOps ds)) ops else "bad-op"
+    | _, _ => "bad-op"
   | _ => "bad-op"
 
 end Aiocoap
